@@ -94,6 +94,188 @@ def reidentify(raw, known):
     return alias
 
 
+def _erase_lt(t):
+    import re
+    t = re.sub(r"'[A-Za-z_][A-Za-z0-9_]*", "'_", t or "")
+    return re.sub(r"\s+", " ", t).strip()
+
+
+def _sig_ret(sig):
+    s = _norm_sig(sig)
+    depth = 0
+    for i, c in enumerate(s):
+        if c in "(<[":
+            depth += 1
+        elif c in ")>]" and s[i - 1] != "-":
+            depth -= 1
+            if depth == 0 and c == ")":
+                rest = s[i + 1:].strip()
+                return rest[2:].strip() if rest.startswith("->") else "()"
+    return "()"
+
+
+def fuse_splits(raw, known, alias):
+    """a private function of the pinned tree that was split into two halves called one right after the other (`add_count` =
+    `bump_count` + `resize_if_needed(count, ..)`): when a known function K is missing and there is exactly one pair of unknown
+    functions g, h next to where K lived such that (a) every call of g is followed at once by a call of h that receives g's result, and
+    every call of h follows a call of g in that way, (b) the parameters of g and h, without the one that carries g's result and with
+    `self` counted once, are K's parameters and h returns what K returned -- then K is re-created as `{ let t = g(..); h(.., t, ..) }`
+    and every such pair of calls becomes one call of K.  g and h are unknown helpers and are inlined into the re-created K like any
+    other.  This is the exact composition, so no rule is weakened.  Returns the list of re-created ids."""
+    bodies = raw["bodies"]
+    present = {strip_generics(b["id"]) for b in bodies if b["kind"] != "Closure"}
+    missing = [k for k in known if k not in present and k not in set(alias.values()) and k in KNOWN_PARAMS]
+    if not missing:
+        return []
+    unknown = [b for b in bodies if b["kind"] != "Closure" and strip_generics(b["id"]) not in known
+               and strip_generics(b["id"]) not in alias and not b.get("exported") and not (b.get("impl") or {}).get("trait")]
+    by_id = {b["id"]: b for b in bodies}
+    sites = {}
+    for b in bodies:
+        for bi, blk in enumerate(b["blocks"]):
+            t = blk["term"]
+            if t["k"] == "call":
+                r = (t.get("callee") or {}).get("resolved") or (t.get("callee") or {}).get("def")
+                if r in by_id:
+                    sites.setdefault(r, []).append((b, bi))
+    made = []
+    for K in missing:
+        kp = [(n, _erase_lt(t)) for n, t in KNOWN_PARAMS[K]["params"]]
+        kret = _erase_lt(_sig_ret(known[K]))
+        kcont = K.rpartition("::")[0]
+        found = []
+        for g in unknown:
+            if strip_generics(g["id"]).rpartition("::")[0] != kcont or not sites.get(g["id"]):
+                continue
+            gp = [(g["locals"][i].get("name"), _erase_lt(g["locals"][i]["s"])) for i in range(1, g.get("args", 0) + 1)]
+            gret = _erase_lt(g["locals"][0]["s"])
+            if gret == "()":
+                continue
+            for h in unknown:
+                if h is g or strip_generics(h["id"]).rpartition("::")[0] != kcont or not sites.get(h["id"]):
+                    continue
+                if len(sites[h["id"]]) != len(sites[g["id"]]):
+                    continue
+                hp = [(h["locals"][i].get("name"), _erase_lt(h["locals"][i]["s"])) for i in range(1, h.get("args", 0) + 1)]
+                if _erase_lt(h["locals"][0]["s"]) != kret:
+                    continue
+                for j, (_, ht) in enumerate(hp):
+                    if ht != gret:
+                        continue
+                    rest = gp + [x for i, x in enumerate(hp) if i != j]
+                    if gp and hp and gp[0][0] == "self" and hp[0][0] == "self" and j != 0:
+                        rest = gp + [x for i, x in enumerate(hp) if i != j and i != 0]
+                    if sorted(t for _, t in rest) != sorted(t for _, t in kp):
+                        continue
+                    # every call of g runs straight into a call of h that takes its result at position j
+                    ok = True
+                    pairs = []
+                    hsites = {(id(b), bi) for b, bi in sites[h["id"]]}
+                    for b, bi in sites[g["id"]]:
+                        t = b["blocks"][bi]["term"]
+                        tb = t.get("target")
+                        if tb is None or (id(b), tb) not in hsites or t["dst"]["proj"]:
+                            ok = False
+                            break
+                        blk2 = b["blocks"][tb]
+                        a = blk2["term"]["args"][j]
+                        pl = a.get("move") or a.get("copy")
+                        src = pl["local"] if pl and not pl["proj"] else None
+                        hops = 0
+                        while src is not None and src != t["dst"]["local"] and hops < 4:
+                            hops += 1
+                            nxt = None
+                            for st in blk2["stmts"]:
+                                if st["k"] == "assign" and st["dst"]["local"] == src and not st["dst"]["proj"]:
+                                    u = st["rv"].get("use") or {}
+                                    pl2 = u.get("move") or u.get("copy")
+                                    if pl2 and not pl2["proj"]:
+                                        nxt = pl2["local"]
+                            src = nxt
+                        if src != t["dst"]["local"]:
+                            ok = False
+                            break
+                        pairs.append((b, bi, tb))
+                    if ok and pairs:
+                        found.append((g, h, j, gp, hp, pairs))
+        if len(found) != 1:
+            continue
+        g, h, j, gp, hp, pairs = found[0]
+        # where each of K's parameters comes from: ('g', i) / ('h', i), by name and type, then by type alone
+        pool = [("g", i, n, t) for i, (n, t) in enumerate(gp)] + [("h", i, n, t) for i, (n, t) in enumerate(hp) if i != j]
+        src_of = []
+        used = set()
+        bad = False
+        for n, t in kp:
+            c = [x for x in pool if x[3] == t and x[2] == n and (x[0], x[1]) not in used] or \
+                [x for x in pool if x[3] == t and (x[0], x[1]) not in used]
+            if n == "self":
+                c = [x for x in pool if x[2] == "self" and x[3] == t][:1]
+            elif len(c) != 1 and len({x[3] for x in c}) == 1 and c and c[0][2] == n:
+                c = c[:1]
+            if len(c) != 1:
+                bad = True
+                break
+            src_of.append((c[0][0], c[0][1]))
+            used.add((c[0][0], c[0][1]))
+        if bad:
+            continue
+        name = K.rpartition("::")[2]
+        gid = g["id"]
+        kid = gid[:len(gid) - len(g["name"])] + name
+        first_g = sites[g["id"]][0]
+        first_h = sites[h["id"]][0]
+        gcal = copy.deepcopy(first_g[0]["blocks"][first_g[1]]["term"]["callee"])
+        hcal = copy.deepcopy(first_h[0]["blocks"][first_h[1]]["term"]["callee"])
+        kcal = copy.deepcopy(gcal)
+        for f in ("def", "path", "resolved"):
+            if kcal.get(f):
+                kcal[f] = kid
+        kcal["name"] = name
+        kb = {k: copy.deepcopy(v) for k, v in h.items() if k not in ("locals", "blocks", "promoted", "debug_places", "inlined")}
+        kb.update({"id": kid, "name": name, "args": len(kp), "sig": known[K], "span": g["span"], "promoted": [], "debug_places": [],
+                   "fused_from": [g["id"], h["id"]]})
+        locs = [copy.deepcopy(h["locals"][0])]
+        for (w, i), (n, _) in zip(src_of, kp):
+            l = copy.deepcopy((g if w == "g" else h)["locals"][1 + i])
+            l["name"] = n
+            locs.append(l)
+        tmp = len(locs)
+        locs.append(copy.deepcopy(g["locals"][0]))
+        kb["locals"] = locs
+
+        def param_of(w, i):
+            return 1 + src_of.index((w, i)) if (w, i) in src_of else (1 + [n for n, _ in kp].index("self"))
+        gargs = [{"copy": {"local": param_of("g", i), "proj": []}} for i in range(len(gp))]
+        hargs = [({"move": {"local": tmp, "proj": []}} if i == j else {"copy": {"local": param_of("h", i), "proj": []}}) for i in range(len(hp))]
+        sp = g["span"]
+        kb["blocks"] = [
+            {"cleanup": False, "stmts": [], "term": {"span": sp, "k": "call", "callee": gcal, "args": gargs, "dst": {"local": tmp, "proj": []},
+                                                      "target": 1, "unwind": "continue", "fn_span": sp}},
+            {"cleanup": False, "stmts": [], "term": {"span": sp, "k": "call", "callee": hcal, "args": hargs, "dst": {"local": 0, "proj": []},
+                                                      "target": 2, "unwind": "continue", "fn_span": sp}},
+            {"cleanup": False, "stmts": [], "term": {"span": sp, "k": "return"}},
+        ]
+        for b, bi, tb in pairs:
+            t1 = b["blocks"][bi]["term"]
+            blk2 = b["blocks"][tb]
+            t2 = blk2["term"]
+            keep = {(a.get("move") or a.get("copy") or {}).get("local") for a in t1["args"]}
+            blk2["stmts"] = [st for st in blk2["stmts"] if not (st["k"] == "storage_dead" and st["local"] in keep)]
+            args = []
+            for (w, i) in src_of:
+                a = copy.deepcopy((t1 if w == "g" else t2)["args"][i])
+                args.append(a)
+            t2["callee"] = copy.deepcopy(kcal)
+            t2["args"] = args
+            t2["fused_call"] = [g["name"], h["name"]]
+            b["blocks"][bi]["term"] = {"k": "goto", "target": tb, "span": t1.get("span", b["span"]), "fused_first_half": g["name"]}
+        bodies.append(kb)
+        by_id[kid] = kb
+        made.append(kid)
+    return made
+
+
 def _shift(o, L0, B0, P0):
     """deep copy of a statement / terminator with locals, blocks and promoted indexes renumbered"""
     if isinstance(o, dict):
@@ -1043,6 +1225,15 @@ def _inline_pass(raw, first):
         direct = set()
     alias = reidentify(raw, known)
     raw["sid_alias"] = alias
+    if first:
+        try:
+            fused = fuse_splits(raw, known, alias)
+        except Exception:
+            fused = []
+        if fused:
+            raw["fused_splits"] = fused
+            bodies = raw["bodies"]
+            by_id = {b["id"]: b for b in bodies}
     cand = {}
     for b in bodies:
         if b["id"] in direct and not any(blk["term"]["k"] == "other" for blk in b["blocks"]):
